@@ -548,7 +548,7 @@ func rcptIndices(e *mail.SendError, m int, cfg Cfg) []int {
 func msgResult(msg *mail.Msg, m int, cfg Cfg) map[string]interface{} {
 	res := map[string]interface{}{
 		"delivered": msg.IsDelivered(), "haserr": msg.HasSendError(), "reason": "", "code": 0,
-		"temp": false, "esc": "", "rcpts": []int{},
+		"temp": false, "temp2": msg.SendErrorIsTemp(), "esc": "", "rcpts": []int{}, "ownmsg": true,
 	}
 	var se *mail.SendError
 	if err := msg.SendError(); err != nil && errors.As(err, &se) {
@@ -559,10 +559,48 @@ func msgResult(msg *mail.Msg, m int, cfg Cfg) map[string]interface{} {
 		res["reason"] = name
 		res["code"] = se.ErrorCode()
 		res["temp"] = se.IsTemp()
+		// the error names the message it belongs to
+		res["ownmsg"] = se.Msg() == msg && se.MessageID() == msg.GetMessageID()
 		res["esc"] = se.EnhancedStatusCode()
 		res["rcpts"] = rcptIndices(se, m, cfg)
 	}
 	return res
+}
+
+// joinedEntries lists, for every entry of a joined send error, the 1-based index of the message it names (0: none
+// of the messages of the call, or not a SendError).
+func joinedEntries(err error, msgs []*mail.Msg) []int {
+	out := []int{}
+	var walk func(e error)
+	walk = func(e error) {
+		if e == nil {
+			return
+		}
+		if j, ok := e.(interface{ Unwrap() []error }); ok {
+			for _, x := range j.Unwrap() {
+				walk(x)
+			}
+			return
+		}
+		if u := errors.Unwrap(e); u != nil {
+			if _, ok := u.(interface{ Unwrap() []error }); ok {
+				walk(u)
+				return
+			}
+		}
+		idx := 0
+		var se *mail.SendError
+		if errors.As(e, &se) {
+			for i, m := range msgs {
+				if se.Msg() == m {
+					idx = i + 1
+				}
+			}
+		}
+		out = append(out, idx)
+	}
+	walk(err)
+	return out
 }
 
 func countJoined(err error) int {
@@ -934,7 +972,7 @@ func (rn *Runner) Run() {
 			inner = errors.Unwrap(err)
 		}
 		r.Emit("ret", "op", op, "err", err != nil, "elapsed", elapsed, "top", topReason(err, msgs),
-			"nerrs", countJoined(inner), "msgs", res, "text", clip(err))
+			"nerrs", countJoined(inner), "entries", joinedEntries(inner, msgs), "msgs", res, "text", clip(err))
 	}
 
 	if cfg.Redial { // a first dial under policy none, then the configuration changes
